@@ -3,7 +3,7 @@ K3 growth initiators (who-may-call) / K4 cap guard, never shrinks / K5 constants
 from fractions import Fraction
 
 from .affine import facts_at, le_at, ne0_at, evaluator, evaluator_exact, floor_shift, Aff, TOP
-from .analysis import flow, cond_of, dominated_by_edge, reach, entry, Point, dominates, return_points
+from .analysis import flow, cond_of, dominated_by_edge, reach, entry, Point, dominates, return_points, after
 from .anchors import callee_str, is_std_atomic, receiver_field, is_reclaim_atomic
 from .callgraph import callgraph
 from .facts import strip_generics, op_root, op_local, op_int
@@ -559,6 +559,53 @@ def rule_k10(ctx, facts):
         ctx.fail_closed("K10: no exit of the resize loop compares the count with size_ctl")
 
 
+def rule_k11(ctx, facts):
+    """the length `put` reports for a list bin is the number of nodes it walked: in the walk loop the counter is incremented only on the
+    way to the next node, never on the way to the append -- otherwise a bin is reported one node longer than it was when the new node was
+    linked, and the treeify / small-table presize threshold is met one insert early"""
+    from .analysis import back_edges, loop_blocks
+    from .rules_c05 import put_events
+    put = facts.body("map::HashMap::put")
+    ev = evaluator(put)
+    pc, pe = put_events(facts, put)
+    apps = [pt for pt, d in pc.items() if d == "fresh node appended"]
+    if not apps:
+        ctx.fail_closed("K11: the append of a fresh node in put's list walk was not found")
+        return
+    n = 0
+    from .anchors import is_link_load
+    for app in apps:
+        # the walk loop: the innermost loop with a Node.next load from whose head the append is reached within one iteration (the append
+        # itself leaves the loop, so it is not one of its blocks)
+        cands = []
+        for be in back_edges(put):
+            L = loop_blocks(put, be)
+            if not any(c.b in L and is_link_load(c) == "load" and ("node::Node", "next") in receiver_field(put, c, 0) for c in put.calls):
+                continue
+            fh = reach(put, [Point(be[1], 0)], avoid={put.term_point(be[0])}, unwind=False)
+            if app in fh:
+                cands.append((be, L, fh))
+        if not cands:
+            continue
+        (tail, head), L, from_head = min(cands, key=lambda x: len(x[1]))
+        incs = []
+        for l in range(len(put.locals)):
+            if put.ty(l).get("s") != "usize" or not put.local_name(l):
+                continue
+            for pt, f in ev.def_forms(l):
+                if pt[0] in L and f is not TOP and f == Aff.sym(("phi", l)) + Aff.const(1):
+                    incs.append((l, Point(pt[0], pt[1])))
+        for l, ip in incs:
+            n += 1
+            early = ip in from_head and app in reach(put, after(put, ip), avoid={Point(head, 0)}, unwind=False)
+            ctx.inst("K11", put, "`%s` counts the nodes walked" % put.local_name(l), put.span_at(ip), not early,
+                     "incremented only on the way to the next node" if not early else
+                     "`%s` is incremented at %s on the way to the append at %s: the bin is reported one node longer than it was, and a bin of 7 "
+                     "already triggers treeification (or, in a table shorter than 64, a resize)" % (put.local_name(l), put.span_at(ip), put.span_at(app)))
+    if n < 1:
+        ctx.fail_closed("K11: no counter of the list walk found in put")
+
+
 def rule_k9(ctx, facts):
     tb = facts.body("HashMap::treeify_bin")
     ac = facts.body("HashMap::add_count")
@@ -595,6 +642,8 @@ def run(ctx, facts):
     ctx.rule("K9", "treeify_bin (which grows a table shorter than 64 instead of converting the bin) is called only by an inserting "
                    "operation -- one that adds 1 to the count -- and never by one that can only update or remove", floor=1)
     rule_k9(ctx, facts)
+    ctx.rule("K11", "the bin length put reports is the number of nodes walked: the counter is not incremented on the way to the append", floor=1)
+    rule_k11(ctx, facts)
     ctx.rule("K10", "add_count leaves its resize loop only with count < size_ctl or for a reason independent of the count and of the "
                     "resize hint", floor=1)
     rule_k10(ctx, facts)
